@@ -93,7 +93,7 @@ class Check(PropertyCheck):
             "schedule makespan, status optimal => equals the brute-force optimum (exhaustive semi-active search in plain "
             "Python), <= every dispatching rule's makespan, >= job-length and machine-load bounds, no NoSolutionFoundError "
             "without a time limit; a benchmark instance solved under a sub-second time limit (status feasible): reported = actual "
-            "makespan, feasible, complete; thorough tier: benchmark instances with recorded optima/bounds; non-trivial = >=2 jobs "
+            "makespan, feasible, complete; build/solve/drop loops of same-shape same-total instances (each answer is about the instance passed); thorough tier: benchmark instances with recorded optima/bounds; non-trivial = >=2 jobs "
             "sharing a machine")
     ASSUMPTIONS = ["CP-SAT is sound and complete for the model it is given (solution satisfies every constraint; "
                    "OPTIMAL = no better solution; INFEASIBLE only without solutions)",
@@ -146,6 +146,10 @@ class Check(PropertyCheck):
             yield Scenario(["new", "cpnew", f"mark stalemeta {rng.randint(0, 10**6)}"], {"families": "stalemeta", "solves": 1})
         for k in range(3 if tier == "quick" else 20):
             yield Scenario(["new", "cpnew", f"mark hugedur {rng.randint(0, 10**6)}"], {"families": "hugedur", "solves": 1})
+        # a build / solve / drop loop (the way a benchmark study runs): same shape, same total processing time, every
+        # instance garbage before the next one exists - each answer must be about the instance that was passed
+        for k in range(3 if tier == "quick" else 25):
+            yield Scenario(["new", "cpnew", f"mark gcloop {rng.randint(0, 10**6)}"], {"families": "gcloop", "solves": 10})
         if tier == "thorough":
             for name in ["ft06", "la01", "la05", "orb01"][: 4]:
                 yield Scenario(["new", "cpnew", f"mark benchmark {name}"], {"families": "benchmark", "solves": 1})
@@ -212,6 +216,33 @@ class Check(PropertyCheck):
             res += self.check_schedule(inst, jobs, sched, exact_objective=False)
             if sched.makespan() < opt:
                 res.append(("below-optimum", f"makespan {sched.makespan()} below the exhaustive optimum {opt} (instance {jobs})"))
+        elif line.startswith("mark gcloop"):
+            import gc
+            from impl_ext import _ORToolsSolver, _NoSolution
+            r = random.Random(int(line.split()[2]))
+            J, M, P = r.randint(2, 3), r.randint(2, 3), r.randint(2, 3)
+            durs = [r.randint(1, 7) for _ in range(J * P)]
+            one_solver = _ORToolsSolver() if r.random() < 0.4 else None
+            for it in range(10):
+                r.shuffle(durs)             # same multiset of durations (same total), other operations / other routing
+                jobs = [[([r.randrange(M)], durs[j * P + p]) for p in range(P)] for j in range(J)]
+                inst = build_instance(jobs)
+                try:
+                    sched = (one_solver or _ORToolsSolver()).solve(inst)
+                except _NoSolution:
+                    res.append(("no-solution", f"NoSolutionFoundError without a time limit (loop iteration {it}, instance {jobs})"))
+                    break
+                except Exception as e:  # pylint: disable=broad-except
+                    res.append(("solve-raised", f"solve raised {e!r} (loop iteration {it}, instance {jobs})"))
+                    break
+                if sched.instance is not inst:
+                    res.append(("other-instance", f"loop iteration {it}: the returned schedule is not for the instance passed"))
+                bad = self.check_schedule(inst, jobs, sched)
+                res += [(k, f"loop iteration {it}: {msg}") for k, msg in bad]
+                if bad:
+                    break
+                del inst, sched
+                gc.collect()
         elif line.startswith("mark stalemeta"):
             # free-form metadata (also keys that look like bounds, as the benchmark instances carry them) is not part of
             # the problem: a small instance with made-up `lower_bound` / `upper_bound` / `optimum` entries
